@@ -4,34 +4,6 @@
 
 package x509
 
-// c11Cert wraps a TBS into a Certificate: SEQUENCE { tbs, signatureAlgorithm, BIT STRING }.
-func c11Cert(tbs []byte, sigOID byte, sig []byte) []byte {
-	alg := derTLV(0x30, []byte{0x06, 0x01, sigOID})
-	return derTLV(0x30, tbs, alg, derTLV(0x03, append([]byte{0x00}, sig...)))
-}
-
-// c11TBS is a v3 TBSCertificate whose serial INTEGER is given as raw content octets (so that
-// non-minimal encodings, which only the lax parser accepts, are in range).
-func c11TBS(serial []byte, sigOID byte, issuer, subject []byte, keyBits byte, exts [][]byte) []byte {
-	version := []byte{0xa0, 0x03, 0x02, 0x01, 0x02}
-	ser := derTLV(0x02, serial)
-	alg := derTLV(0x30, []byte{0x06, 0x01, sigOID})
-	validity := derTLV(0x30, derTLV(0x17, []byte("250101000000Z")), derTLV(0x18, []byte("20510101000000Z")))
-	spki := derTLV(0x30, derTLV(0x30, []byte{0x06, 0x01, sigOID}), []byte{0x03, 0x02, 0x00, keyBits})
-	parts := [][]byte{version, ser, alg, issuer, validity, subject, spki}
-	if len(exts) > 0 {
-		parts = append(parts, derTLV(0xa3, derTLV(0x30, exts...)))
-	}
-	return derTLV(0x30, parts...)
-}
-
-func c11Coherent(obj bool, err error) bool {
-	if obj {
-		return err == nil || !IsFatal(err)
-	}
-	return err != nil && IsFatal(err)
-}
-
 func c11Skeleton() (der, tbs, issuer, subject []byte, serialLen int) {
 	serialLen = 1 + vChoice("serial-len", 2)
 	serial := vBytes("serial", serialLen)
